@@ -244,7 +244,11 @@ class Heap:
         es = T.sort(t.elem)
         e = z3.Const(fresh_name("am_e"), es)
         M = mem_fn(es)
-        return z3.ForAll([e], M(z3.Store(old_elems, n, z), n + 1, e) == z3.Or(M(old_elems, n, e), e == z), patterns=[M(z3.Store(old_elems, n, z), n + 1, e)])
+        body = M(z3.Store(old_elems, n, z), n + 1, e) == z3.Or(M(old_elems, n, e), e == z)
+        try:
+            return z3.ForAll([e], body, patterns=[M(z3.Store(old_elems, n, z), n + 1, e)])
+        except z3.Z3Exception:
+            return z3.ForAll([e], body)  # the index term contains an if-then-else: let z3 choose the triggers
 
     def l_set(self, t, c, i, z):
         return [self._upd(t, "elem", c, z3.Store(self.l_elems(t, c), i, z))]
